@@ -962,6 +962,12 @@ func zzDo_%(N)s(m *%(N)s, ref *zzM_%(N)s, opn string, sym bool, what string) str
                     w('		})')
                 if self.linked:
                     w('		ref.sort(desc)')
+                    # Sort re-inserts every entry at the end: on a structure whose maximum was lowered
+                    # below its size that insertion enforces the maximum (evicting from the front)
+                    w('		if ref.overfull && ref.max > 0 && len(ref.e) > ref.max {')
+                    w('			ref.e = append(ref.e[:0:0], ref.e[len(ref.e)-ref.max:]...)')
+                    w('		}')
+                    w('		ref.overfull = false')
             elif o == 'sortdesc':
                 pass
             elif o == 'setmax':
@@ -1107,7 +1113,7 @@ func ZZ_%(P)s_%(N)s_Pool() {
 }
 
 // Symbolic: ALL keys and values symbolic%(lkdoc)s. Bounds: prefix of <= 1 insertion
-// (thorough 2) + 1 operation; table configurations / maxima: zzCfgs, zzMaxes (zz_model.go).
+// + 1 operation (both tiers); table configurations / maxima: zzCfgs, zzMaxes (zz_model.go).
 //vf:%(dirs)s
 func ZZ_%(P)s_%(N)s_Symbolic() {
 	if zzvf.Thorough() && %(symdeep)s {
@@ -1115,7 +1121,7 @@ func ZZ_%(P)s_%(N)s_Symbolic() {
 	} else {
 		zzRun_%(N)s(true, 1, 1, 0)
 	}
-}%(shrink)s''' % dict(shrink=self.shrink(), symdeep=('true' if P == 'C09' else 'false /* plain types only have the 101-bucket table: two symbolic keys = 101 x 101 bucket pairs, not finished in 40 min */'), N=N, P=P, pd=pooldesc, nops=len(t['ops']), dir=DIRECTIVE[(P, 'Pool')], dirs=DIRECTIVE[(P, 'Symbolic')],
+}%(shrink)s''' % dict(shrink=self.shrink(), symdeep=('false /* two symbolic keys + 1 operation: one type alone ran for more than 15 minutes, the 13 types do not finish in a sweep: outside, the thorough tier keeps the quick bound */' if P == 'C09' else 'false /* plain types only have the 101-bucket table: two symbolic keys = 101 x 101 bucket pairs, not finished in 40 min */'), N=N, P=P, pd=pooldesc, nops=len(t['ops']), dir=DIRECTIVE[(P, 'Pool')], dirs=DIRECTIVE[(P, 'Symbolic')],
             lkdoc=' (LinkedKey: symbolic Hash() and symbolic id, so collisions between unequal keys arise by solving)' if self.k == 'lk' else ''))
 
     def shrink(self):
